@@ -8,7 +8,7 @@ import z3
 
 from .core import (
     SymObj, SList, PList, PDict, FuncVal, BuiltinVal, ClassVal, HRef, Unsupported, is_sym, is_intlike,
-    is_boollike, _Mut, Frame,
+    is_boollike, _Mut, Frame, to_z3,
 )
 from . import source as src
 from .tmpl import Tmpl, Atom, mk as tmpl_mk, join as tmpl_join, is_strlike, to_tmpl_part
@@ -427,6 +427,12 @@ class ExtMixin:
         x = args[0]
         if hasattr(x, "utf8") and (len(args) == 1 or args[1] in ("utf8", "utf-8")):
             return x.utf8()
+        if len(args) == 1 and is_intlike(x) and not isinstance(x, bool):
+            # bytes(n): n zero bytes (ValueError for a negative count)
+            from .xbuf import ByteStr
+
+            self.safety(st, "ValueError", to_z3(x) >= 0 if is_sym(x) else x >= 0, node)
+            return ByteStr(x, z3.K(z3.IntSort(), z3.IntVal(0)), "zeros")
         raise Unsupported("bytes() of this value")
 
     def bi_reversed(self, st, f, args, kw, node):
